@@ -192,11 +192,12 @@ Definition c_shift (left : bool) (ta : cty) (a b : Z) (flag : bool) : option (ct
     (if sgn ta && (a <? 0) then None else result ta (a * 2 ^ b) flag)
   else Some (ta, Z.shiftr a b, flag).        (* gcc: arithmetic shift of negative values *)
 
-Fixpoint c_eval (e : expr) : option (cty * Z * bool) :=
+(* cenv: the integer constants declared earlier (enumerators have type int, C11 6.7.2.2) with their C type *)
+Fixpoint c_eval (cenv : list (text * (cty * Z))) (e : expr) : option (cty * Z * bool) :=
   match e with
   | Const s => match c_literal s with Some (t, v) => Some (t, v, true) | None => None end
   | Unary op e1 =>
-      match c_eval e1 with
+      match c_eval cenv e1 with
       | Some (t, v, f) =>
           if String.eqb op "+" then Some (t, v, f)
           else if String.eqb op "-" then result t (- v) f
@@ -204,7 +205,7 @@ Fixpoint c_eval (e : expr) : option (cty * Z * bool) :=
       | None => None
       end
   | Binary op l r =>
-      match c_eval l, c_eval r with
+      match c_eval cenv l, c_eval cenv r with
       | Some (ta, a, fa), Some (tb, b, fb) =>
           match arith_of op with
           | Some o => c_arith o ta a tb b (fa && fb)
@@ -215,12 +216,18 @@ Fixpoint c_eval (e : expr) : option (cty * Z * bool) :=
           end
       | _, _ => None
       end
-  | Id _ | Other => None
+  | Id name => match lookup name cenv with Some (t, v) => Some (t, v, true) | None => None end
+  | Other => None
   end.
 
 (* for the correspondence with gcc: (rank number, signed, value) *)
-Definition c_eval_out (e : expr) : option (Z * (bool * Z)) :=
-  match c_eval e with
+Definition c_eval_out_env (cenv : list (text * (cty * Z))) (e : expr) : option (Z * (bool * Z)) :=
+  match c_eval cenv e with
   | Some (t, v, _) => Some (rank_num (rk t), (sgn t, v))
   | None => None
   end.
+Definition c_eval_out (e : expr) : option (Z * (bool * Z)) := c_eval_out_env [] e.
+
+(* cffi's table of known constants holds the same values *)
+Definition env_agree (cenv : list (text * (cty * Z))) (env : list (text * Z)) : Prop :=
+  forall n t v, lookup n cenv = Some (t, v) -> lookup n env = Some v.
